@@ -183,6 +183,10 @@ class DirectoryComputation(MessagePassingComputation):
                 except UnknownAgent:
                     self.logger.warning('Unknown agent %s on lookup ',
                                         msg.agent)
+                    # The subscriber may still hold an outdated address for
+                    # this agent (known before a previous un-subscription):
+                    # tell it that the agent is currently not registered.
+                    self.notify_agent_unregistered(sender, msg.agent)
         else:
             self.logger.info('UnSubscribe for agent %s from %s',
                              msg.agent, sender)
